@@ -7,7 +7,7 @@ Property oracle on the implementation's own outputs: dense sampling never outsid
 Integrate additive and exactly antisymmetric; difference quotient of the integral = Simpson mean of
 Interpolate (exact for the cubic pieces); everything under prefactors of either sign.
 """
-import math, random, sys
+import math, os, random, sys
 from fractions import Fraction
 from common import *
 import c09 as _T   # table / abscissa generators shared with C09 (same owner)
@@ -53,10 +53,20 @@ CORR_ONLY = ["the square root of Stationary_Values (fix 51ca844) is a parameter 
              "slack that remains: one evaluation is compared with Local_* at 64 eps x (sum of |terms| of the cubic), with Global_* at 32 eps (1-D) / "
              "8 eps (2-D) x max|table| x |prefactor| (rounding of the evaluation itself); Integrate at 16 eps x sum of |terms| relative to the left "
              "abscissa; scaling by Set_Prefactor/Multiply is demanded bit-for-bit (Integrate: for factors +-2^k, otherwise 128 eps x scale)"]
-ASSUMPTIONS = ["std::min_element/std::max_element/std::min/std::max return an extremal element",
+ASSUMPTIONS = ["NaN arguments are outside the statement (every `<` guard lets NaN pass): not generated",
+               "PENDING repair C08-2 (audit2 P2/P7, /tmp/fixprop-C08-2): until it is applied the Integrate clauses are judged at the scale of the stem-function difference as coded (16 eps x sum of |terms at the limits|, which does not shrink with the width of the range: vacuous for ranges much shorter than their interval), Integrate scales bit-for-bit only for factors +-2^k, and the joint-scale tables (spacing 1e-100..1e100, where pow(t,4) under/overflows) are not generated; LP_ASSUME_FIXED=C08-2 switches to the strict clauses (scale proportional to the width, bit-exact scaling from the unit prefactor, bounds at 16 eps x max|curve| x length, joint-scale tables)",
+               "std::min_element/std::max_element/std::min/std::max return an extremal element",
                "unit factors in the generated requests are powers of two (exact in double), so model and code see the same table",
                "abscissae with 0 < |x| < 1e-200 are mapped to 0 by the generator (underflow of products is not in the model); absolute slack 2^-1000"]
 TRUSTED = []
+
+# Pending repair C08-2 (/tmp/fixprop-C08-2: Integrate integrates each piece from its left limit, prefactor applied once).
+# While it is pending the Integrate clauses keep the scale of the code as it is (stem-function difference: eps*|terms at x_left|,
+# which does not shrink with the width of the range) and the joint-scale family is not generated; with the repair applied
+# (PENDING_C08_2 = False, or LP_ASSUME_FIXED=C08-2 for a rehearsal) the scale is proportional to the width, Integrate scales
+# bit-for-bit with every factor and the bounds clause is judged at 16 eps x max|curve| x length.
+PENDING_C08_2 = True
+STRICT_INTEG = (not PENDING_C08_2) or "C08-2" in os.environ.get("LP_ASSUME_FIXED", "").split(",")
 
 K_B = 16           # class-B factor; the scale is relative to the left abscissa of each interval (fix d3bfb03); worst observed ratio in evidence 'max_ratio'
 K_GLOBAL_1D = 32   # eps: evaluation vs Global_* (audit: worst 13.5 eps)
@@ -69,9 +79,9 @@ ATOL = Fraction(1, 2 ** 1000)   # underflow to zero / denormals are not in the m
 def pref_ops(rng):
     """a sequence of Set_Prefactor / Multiply calls and the resulting factor (as the code computes it)"""
     ops, p = [], 1.0
-    for _ in range(rng.choice([0, 0, 1, 1, 2, 3])):
+    for _ in range(rng.choice([0, 0, 1, 1, 2, 3, 3, 5, 8])):
         if rng.random() < 0.6:
-            v = rng.choice([1.0, -1.0, 2.0, -0.5, 3.0, -7.25, 1e-30, -1e-30, 1e30, -1e25, rng.uniform(-5, 5)])
+            v = rng.choice([1.0, -1.0, 2.0, -0.5, 3.0, -7.25, 1e-30, -1e-30, 1e30, -1e25, rng.uniform(-5, 5), rng.uniform(-5, 5), 0.0, -0.0])
             ops.append("P %s" % hx(v)); p = v
         else:
             v = rng.choice([-1.0, 2.0, 0.5, -3.0, 1e-10, -1e10, rng.uniform(-3, 3)])
@@ -172,7 +182,7 @@ def build_ext(rng, meta, xs, ys, xd, fd, xs2, ys2, P, p, x1, x2, fam="ext"):
     # the same queries at the unit prefactor first: Set_Prefactor/Multiply must change them by exactly the factor
     nunit = min(16, len(samples))
     unit = (ext4 + ["I %s" % hx(v) for v in samples[:nunit]] + dq) if P else []
-    ops = unit + P + ext4 + ["I %s" % hx(v) for v in samples] + dq
+    ops = unit + P + ext4 + ["I %s" % hx(v) for v in samples] + dq + ["G %s %s" % (hx(x1), hx(x2))]
     rq = "%s %d %s" % (head(xs, ys, xd, fd), len(ops), " ".join(ops))
     meta[rq] = dict(fam="ext", gen=fam, np=len(unit) + len(P), nin=nin, nzone=nzone, nunit=nunit if P else 0, nd=len(dq), ns=len(samples),
                     allknots=allknots, p=p, n=len(xs), span=len(inside),
@@ -310,14 +320,15 @@ def exact_mid(b, b2):
     return m if Fraction(m) * 2 == Fraction(b) + Fraction(b2) else None
 
 
-def gen_add(rng, tier, meta):
-    xs, ys, xd, fd, xs2, ys2 = table(rng, tier)
-    P, p = pref_ops(rng)
+def gen_add(rng, tier, meta, tb=None, pts=None, gen="add"):
+    xs, ys, xd, fd, xs2, ys2 = tb or table(rng, tier)
+    P, p = pref_ops(rng) if rng.random() < 0.5 else ([], 1.0)   # half of the requests start at the unit prefactor
     n = len(xs2)
-    pts = []
-    for _ in range(3):
-        c = rng.random()
-        pts.append(xs2[rng.randint(0, n - 1)] if c < 0.3 else (T.outside_ok(rng, xs2) if c < 0.36 else T.point(rng, xs2, rng.randint(0, n - 2))))
+    if pts is None:
+        pts = []
+        for _ in range(3):
+            c = rng.random()
+            pts.append(xs2[rng.randint(0, n - 1)] if c < 0.3 else (T.outside_ok(rng, xs2) if c < 0.36 else T.point(rng, xs2, rng.randint(0, n - 2))))
     a, b, c_ = pts
     ops = P + ["G %s %s" % (hx(u), hx(v)) for u, v in ((a, b), (b, c_), (a, c_), (b, a), (c_, b), (c_, a), (a, a))]
     # min*len <= Integrate <= max*len with the curve extrema over the range
@@ -325,11 +336,57 @@ def gen_add(rng, tier, meta):
     ops += ["m %s %s" % (hx(lo_), hx(hi_)), "M %s %s" % (hx(lo_), hx(hi_))]
     q = None
     if rng.random() < 0.6:   # a factor applied BETWEEN queries: the same integrals must scale by exactly q
-        q = rng.choice([-1.0, 2.0, 0.5, -3.0, -0.25, 1e-10, -1e10])
+        q = rng.choice([-1.0, 2.0, 0.5, -3.0, -0.25, 1e-10, -1e10, 3.0, rng.uniform(-4, 4)])
         ops += ["X %s" % hx(q)] + ["G %s %s" % (hx(u), hx(v)) for u, v in ((a, b), (b, c_), (a, c_))]
     rq = "%s %d %s" % (head(xs, ys, xd, fd), len(ops), " ".join(ops))
-    meta[rq] = dict(fam="add", np=len(P), p=p, n=n, span=0, xs=xs2, ys=ys2, q=q)
+    meta[rq] = dict(fam="add", gen=gen, np=len(P), p=p, n=n, span=0, xs=xs2, ys=ys2, q=q)
     return rq
+
+
+def gen_short(rng, tier, meta):
+    """ranges much shorter than their interval: (x, x + h*10^-k) for k = 1..12, (next double below a knot, the knot),
+    pairs in the right and left extrapolation zone; with STRICT_INTEG also tables at joint scales (spacing 1e-100 .. 1e100)"""
+    R = []
+    for it in range(90 if tier == "thorough" else 30):
+        tb = table(rng, tier)
+        xs2 = tb[4]
+        n = len(xs2)
+        j = rng.randint(0, n - 2)
+        h = xs2[j + 1] - xs2[j]
+        kind = it % 5
+        if kind <= 2:
+            k = 1 + (it // 5) % 12
+            x = xs2[j] + rng.random() * 0.8 * h
+            d = h * 10.0 ** -k
+            pts = [x, min(x + d, xs2[j + 1]), min(x + 2 * d, xs2[j + 1])]
+        elif kind == 3:   # (down, knotR) and the knot's other neighbour
+            kn = xs2[j + 1]
+            pts = [math.nextafter(kn, -math.inf), kn, min(math.nextafter(kn, math.inf), xs2[-1])]
+        else:             # both limits in one extrapolation zone
+            if it % 2:
+                e = xs2[-1]; hz = 0.009 * (xs2[-1] - xs2[-2])
+                pts = sorted(e + hz * rng.random() for _ in range(3))
+            else:
+                e = xs2[0]; hz = 0.009 * (xs2[1] - xs2[0])
+                pts = sorted(e - hz * rng.random() for _ in range(3))
+        pts = [T.nd(v) for v in pts]
+        R.append(gen_add(rng, tier, meta, tb=tb, pts=pts, gen="short"))
+    if STRICT_INTEG:   # pow(t,4) of the unrepaired code under/overflows here: generated only once the repair is assumed
+        for it in range(60 if tier == "thorough" else 16):
+            n = rng.randint(3, 12)
+            x0 = _C1.gen_xs(rng, n, rng.choice(["jitter", "uniform2"]))
+            y0 = _C1.gen_ys(rng, x0, rng.choice(["smooth", "monotone", "signchange", "plateau"]))
+            Ex = rng.choice([-1, 1]) * rng.randint(200, 330)      # spacings 1e-100 .. 1e100
+            Ey = rng.randint(-40, 40)
+            xs = [math.ldexp(v, Ex) for v in x0]; ys = [math.ldexp(v, Ey) for v in y0]
+            if not all(math.isfinite(v) for v in xs + ys) or len(set(xs)) < n:
+                continue
+            tb = (xs, ys, -1.0, -1.0, xs, ys)
+            pts = [T.point(rng, xs, rng.randint(0, n - 2)) for _ in range(3)]
+            if it % 2:
+                pts = [xs[0], xs[-1], T.point(rng, xs, rng.randint(0, n - 2))]
+            R.append(gen_add(rng, tier, meta, tb=tb, pts=pts, gen="joint-scale"))
+    return R
 
 
 def gen_fd(rng, tier, meta):
@@ -409,7 +466,8 @@ def gen_ext2(rng, tier, meta):
     xs = T.fix_increasing(T.make_xs(rng, nx, rng.choice(["uniform", "random", "geometric"])))
     ys = T.fix_increasing(T.make_xs(rng, ny, rng.choice(["uniform", "random", "clustered"])))
     kind = rng.randrange(3)
-    f = [[(rng.uniform(-10, 10) if kind == 0 else mixed_magnitude(rng, -4, 4) if kind == 1 else float((i - nx // 2) ** 2 + (j - ny // 2) ** 2 + 1))
+    kind = rng.randrange(4)
+    f = [[(rng.uniform(-10, 10) if kind == 0 else mixed_magnitude(rng, -4, 4) if kind == 1 else mixed_magnitude(rng, -20, 20) if kind == 3 else float((i - nx // 2) ** 2 + (j - ny // 2) ** 2 + 1))
           for j in range(ny)] for i in range(nx)]
     xd = rng.choice([-1.0, 2.0]); yd = rng.choice([-1.0, 0.5]); fd = rng.choice([-1.0, 4.0])
     xs2 = [x * xd for x in xs] if xd > 0 else xs
@@ -441,6 +499,7 @@ def generate(tier, seed, ctx):
         R.append(gen_ext(rng, tier, meta))
     R += gen_block(rng, tier, meta)
     R += gen_zone(rng, tier, meta)
+    R += gen_short(rng, tier, meta)
     for _ in range(1500 if th else 220):
         R.append(gen_add(rng, tier, meta))
     for _ in range(1500 if th else 220):
@@ -509,7 +568,12 @@ def model_values(tm):
         elif tm[i] == "L":
             out.append(int(tm[i + 1])); i += 2
         elif tm[i] == "V":
-            out.append((fr(tm[i + 1]), fr(tm[i + 2]))); i += 3
+            val, sc = fr(tm[i + 1]), fr(tm[i + 2]); i += 3
+            if i < len(tm) and tm[i] == "T":      # Integrate: the scale of the repaired code (proportional to the width)
+                if STRICT_INTEG:
+                    sc = fr(tm[i + 1])
+                i += 2
+            out.append((val, sc))
         else:
             raise ValueError("token " + tm[i])
     return out
@@ -564,7 +628,12 @@ class PyScale:
         for j in range(i1, i2 + 1):
             xl = lo if j == i1 else self.x[j]
             xr = hi if j == i2 else self.x[j + 1]
-            tot += self.stem(j, xr) + self.stem(j, xl)
+            if STRICT_INTEG:
+                a, b, c, d = self.coef(j)
+                t, w = abs(xl - self.x[j]), abs(xr - xl)
+                tot += w * ((((a * t + b) * t + c) * t + d) + w * (((3 * a * t + 2 * b) * t + c) / 2 + w * ((3 * a * t + b) / 3 + w * a / 4)))
+            else:
+                tot += self.stem(j, xr) + self.stem(j, xl)
         return 2 * self.p * tot
 
 
@@ -686,6 +755,22 @@ def oracle(meta, ops, vi, vm, ctx):
             out.append(fail("prop", "an evaluation in the domain lies outside [Global_Minimum, Global_Maximum]", "%r..%r vs [%r,%r]" % (min(dom), max(dom), gm, gM)))
         if gm > gM:
             out.append(fail("prop", "Global_Minimum > Global_Maximum", "%r %r" % (gm, gM)))
+        # min x length <= Integrate <= max x length, in every family that asks for the extrema of a range
+        gi = np_ + 4 + ns + meta["nd"]
+        if gi < len(vi) and ops[gi][0] == "G" and vi[gi] is not None and not math.isnan(vi[gi]):
+            ln = Fraction(fl(ops[gi][2])) - Fraction(fl(ops[gi][1]))
+            if vm is not None:
+                sI, es = vm[gi][1], max(vm[np_][1], vm[np_ + 1][1])
+            else:
+                psb = PyScale(meta["xs"], meta["ys"], p)
+                sI, es = Fraction(psb.integ(fl(ops[gi][1]), fl(ops[gi][2]))), Fraction(max(psb.interp(fl(ops[gi][1])), psb.interp(fl(ops[gi][2]))))
+            if STRICT_INTEG:
+                tolb = 16 * EPS * max(abs(Fraction(m)), abs(Fraction(M)), es) * ln + ATOL
+            else:
+                tolb = K_B * EPS * sI + 4 * EPS * max(abs(Fraction(m)), abs(Fraction(M))) * ln + ATOL
+            if Fraction(vi[gi]) < Fraction(m) * ln - tolb or Fraction(vi[gi]) > Fraction(M) * ln + tolb:
+                out.append(fail("prop", "Integrate is outside [minimum x length, maximum x length] of the range",
+                                "I = %r, length %r, Local_Minimum %r, Local_Maximum %r" % (vi[gi], float(ln), m, M)))
         # Set_Prefactor / Multiply change every output by exactly the factor (extrema swap for a negative one)
         nu = meta.get("nunit", 0)
         if nu:
@@ -746,7 +831,11 @@ def oracle(meta, ops, vi, vm, ctx):
         if _finite([mn, mx]):
             ln = Fraction(hi_) - Fraction(lo_)
             sI = (vm[np_][1] if la <= lb else vm[np_ + 3][1]) if vm is not None else scs[0]
-            tolb = K_B * EPS * sI + 4 * EPS * max(abs(Fraction(mn)), abs(Fraction(mx))) * ln + ATOL
+            if STRICT_INTEG:   # 16 eps x max|curve| x length, |curve| including the terms of the cubic at the limits
+                es = max(vm[np_ + 7][1], vm[np_ + 8][1]) if vm is not None else Fraction(max(PyScale(meta["xs"], meta["ys"], meta["p"]).interp(lo_), PyScale(meta["xs"], meta["ys"], meta["p"]).interp(hi_)))
+                tolb = 16 * EPS * max(abs(Fraction(mn)), abs(Fraction(mx)), es) * ln + ATOL
+            else:
+                tolb = K_B * EPS * sI + 4 * EPS * max(abs(Fraction(mn)), abs(Fraction(mx))) * ln + ATOL
             cands = [("Local_Minimum/Maximum", Fraction(mn), Fraction(mx))]
             if vm is not None:
                 cands.append(("the model's curve extrema", vm[np_ + 7][0], vm[np_ + 8][0]))
@@ -762,7 +851,9 @@ def oracle(meta, ops, vi, vm, ctx):
             if not _finite([ab2, bc2, ac2]):
                 return out + [fail("prop", "Integrate returned a non-finite value on a finite table", "")]
             qa = abs(Fraction(q))
-            pow2 = math.frexp(abs(q))[0] == 0.5
+            # a power of two commutes with every rounding; with the repaired code (prefactor applied once to the sum) every factor
+            # gives exactly factor x unit-prefactor answer — when the first block was asked at the unit prefactor
+            pow2 = math.frexp(abs(q))[0] == 0.5 or (STRICT_INTEG and np_ == 0)
             for k, (u1, u2) in enumerate(((ab, ab2), (bc, bc2), (ac, ac2))):
                 if pow2:   # a power of two commutes with every rounding: bit-equal
                     bad = not (u2 == q * u1)
